@@ -58,6 +58,10 @@ def candidates(rng, t, opts, st, depth):
         A((1, ['map', 'upto:%d' % _k(rng)]))
         A((1, ['map', 'opt:%d' % _k(rng)]))
         A((1, ['map', 'nt:%d' % _k(rng)]))
+        A((1, ['map', 'sub:%d' % rng.randint(1, 9)]))
+        A((0.7, ['map', 'kmix:%d' % _k(rng)]))
+        A((0.7, ['map', 'tonp']))
+        A((0.7, ['filter', 'npgt:%d' % rng.randint(1, 9)]))
         A((1, ['map', 'half']))
         A((2, ['filter', 'modne:%d:0' % _k(rng)]))
         A((2, ['filter', 'gt:%d' % rng.randint(1, 12)]))
@@ -87,6 +91,8 @@ def candidates(rng, t, opts, st, depth):
     elif t == 'o':
         A((4, ['fill_none', rng.randint(5, 9)]))
         A((2, ['map', 'isnone']))
+    elif t == 'p':
+        A((4, ['map', 'frompy']))
     elif t == 'n':
         A((4, ['fill_none', rng.randint(5, 9)]))
         A((3, ['map', 'ntsum']))
@@ -129,6 +135,8 @@ def candidates(rng, t, opts, st, depth):
             A((1, ['scan', 'acc_append_mut', 'list_factory', mut_red(), None]))
             A((1, ['scan', 'acc_append_mut', 'list', mut_red(), None]))
             A((1, ['scan', 'acc_nested_mut', 'nested', mut_red(), None]))
+            A((0.7, ['scan', 'acc_box_mut', 'box', mut_red(), None]))
+            A((0.7, ['scan', 'acc_tbox_mut', 'tbox', mut_red(), None]))
         A((1, ['scan', 'acc_digest', 'zero', red(), None]))
         if not no_completion:
             A((1, ['scan', 'acc_append_new', 'list', rng.random() < 0.5, 'term_mark']))
@@ -139,6 +147,7 @@ def candidates(rng, t, opts, st, depth):
         A((2, ['duc', None]))
         if t == 'i':
             A((1, ['duc', 'mod:%d' % _k(rng)]))
+            A((0.7, ['duc', 'modnp:%d' % _k(rng)]))
         A((1, ['assert_1', 'true2']))
         if opts.allow_progress:
             A((1, ['progress', rng.randint(1, 3), rng.random() < 0.3]))
@@ -148,10 +157,11 @@ def candidates(rng, t, opts, st, depth):
             if opts.allow_empty_sensitive:
                 A((2, ['last']))
         if not opts.dual_only:
-            if t in 'iotf':
+            if t in 'iotfp':
                 A((2, ['distinct', None]))
             if t == 'i':
                 A((1, ['distinct', 'mod:%d' % _k(rng)]))
+                A((0.7, ['distinct', 'modnp:%d' % _k(rng)]))
             A((2, ['lag', rng.randint(1, 3) if not opts.scale else rng.choice([257, 300])]))
             A((1, ['pad_start', rng.randint(0, 2), rng.choice([None, 77]) if t == 'i' else None]))
             if t == 'i':
@@ -197,7 +207,7 @@ def gen_context(rng, cx, t, opts, st, depth):
     if cx == 'group_by' and opts.scale and t == 'i':
         node = ['group_by', rng.choice(['mod:300', 'kt:300', 'mod:1000']), inner]
     elif cx == 'group_by':
-        key = rng.choice(['mod:%d', 'kt:%d', 'ks:%d', 'kbig:%d', 'kf:%d', 'kmix:%d', 'kneg:%d', 'kmers:%d']) % _k(rng) if t == 'i' else 'kdig:%d' % _k(rng)
+        key = rng.choice(['mod:%d', 'kt:%d', 'ks:%d', 'kbig:%d', 'kf:%d', 'kmix:%d', 'kneg:%d', 'kmers:%d', 'knp:%d', 'kcent:%d']) % _k(rng) if t == 'i' else 'kdig:%d' % _k(rng)
         node = ['group_by', key, inner]
     elif cx == 'roll':
         w, s = rng.randint(1, 4), rng.randint(1, 4)
@@ -209,7 +219,7 @@ def gen_context(rng, cx, t, opts, st, depth):
         if w > s:
             st.tainted = True
     elif cx == 'split':
-        pred = rng.choice(['div:%d', 'divt:%d', 'divs:%d', 'divbig:%d', 'divpar:%d']) % _k(rng) if t == 'i' else 'digpar:%d' % _k(rng, 10, 40)
+        pred = rng.choice(['div:%d', 'divt:%d', 'divs:%d', 'divbig:%d', 'divpar:%d', 'divnp:%d', 'divbool:%d', 'divcent:%d', 'divnone:%d']) % _k(rng) if t == 'i' else 'digpar:%d' % _k(rng, 10, 40)
         node = ['split', pred, inner]
     else:
         cfg = {'active': rng.choice([None, 3, 5, 8]), 'inactive': rng.choice([None, 2, 3, 4]),
